@@ -352,6 +352,9 @@ class PrecipitateBase(GenericModel):
         Note: GBenergy of 0 is equivalent to bulk precipitation
         '''
         self.matrixParameters.GBenergy = energy
+        #setup() only passes this on before the first run, so update the precipitates here as well
+        for p in range(len(self.phases)):
+            self.precipitateParameters[p].nucleation.gbEnergy = energy
         
     def setTheta(self, theta):
         '''
